@@ -20,6 +20,7 @@ CONSTANTS
   HandlerIds = {}
   Kinds = {"path", "pid", "thr"}
   Keys = {1, 2}
+  BadKeys = {}
   SrcOpts <- Opts_plain
   EvKinds = {"ps"}
   MaxBatch = 2
